@@ -37,6 +37,9 @@ REL_PROGS = ["{ print }", "{ print $index, $ }", "{ $.x = 1 }", "{ $.x = 1\n pri
              "{ $ += 1\n print }"]
 
 
+STALE = b'{"stale": "' + b"old bytes " * 800 + b'"}\n'
+
+
 def safe_inline(prog):
     return not prog.startswith("-") and "\x00" not in prog
 
@@ -165,6 +168,11 @@ class C14(Check):
                     args += ["-o", "odir"]
                 else:
                     args += ["-o", "out.json"]
+                    if len(prog) % 2 == 0:
+                        # the output file exists already and is longer than anything written here:
+                        # -o FILE must leave exactly the document in it, not a prefix of the old bytes
+                        with open(outp, "wb") as f:
+                            f.write(STALE)
             if prog_mode == "file":
                 if not (fault and fault[0] == "noprogfile"):
                     with open(os.path.join(wd, "prog.jqawk"), "wb") as f:
@@ -191,6 +199,8 @@ class C14(Check):
             ofile = None
             if os.path.isfile(outp):
                 ofile = open(outp, "rb").read()
+                if ofile == STALE:
+                    ofile = None            # untouched = not written
             return {"rc": p.returncode, "out": p.stdout, "err": p.stderr, "ofile": ofile, "argv": args[1:]}
         finally:
             shutil.rmtree(wd, ignore_errors=True)
